@@ -129,6 +129,26 @@ where
     .boxed()
 }
 
+/// Every power of two up to 2^64 and of ten up to 10^19, both signs, with their neighbours.
+pub fn int_edges() -> Vec<i128> {
+    let mut edges: Vec<i128> = Vec::new();
+    for k in 0..=64u32 {
+        for d in -2i128..=2 {
+            edges.push((1i128 << k) + d);
+            edges.push(-(1i128 << k) + d);
+        }
+    }
+    for k in 1..=19u32 {
+        for d in -1i128..=1 {
+            edges.push(10i128.pow(k) + d);
+            edges.push(-(10i128.pow(k)) + d);
+        }
+    }
+    edges.sort();
+    edges.dedup();
+    edges
+}
+
 pub fn g_f64_any() -> BS<f64> {
     prop_oneof![
         6 => g_float().prop_map(f64::from_bits),
